@@ -118,8 +118,14 @@ func ddistReplay(in io.Reader, raw bool, args []string) (*Summary, error) {
 				wantP.SetFrac(m, den)
 			}
 			wantC := new(big.Rat).SetFrac(cum, den)
-			for _, off := range []float64{0, 0.5, -0.5, -1e-10, -1e-13} {
+			for oi, off := range []float64{0, 0.5, -0.5, -1e-10, -1e-13, 0} {
 				x := float64(k) + off
+				if oi == 5 {
+					if k != 0 {
+						continue
+					}
+					x = math.Copysign(0, -1) // -0 is the number 0, however it was produced
+				}
 				if off < 0 && off > -0.5 && x == float64(k) {
 					continue // not representable below k at this magnitude
 				}
